@@ -362,6 +362,29 @@ def order_check(case):
                         site=f"order:{lo.split(':')[0]}<={hi.split(':')[0]}", observed=vals, expected=f"{lo} <= {hi}", nontrivial=nontriv)
     if min(vals.values()) < -eps:
         return viol("a value is negative", site="order:range", observed=vals, nontrivial=nontriv)
+    # trivial cap valid for any strategy: sum_xy pi(x,y) max_ab lambda_max V(a,b|x,y); and the scaling relation (coordinator,
+    # after seeded change C07-3): halving every predicate operator halves the NPA level-1 and non-signalling values
+    pr, pm = np.asarray(prob, dtype=float), np.asarray(pred)
+    _, _, A_, B_, X_, Y_ = pm.shape
+    cap = float(sum(pr[x, y] * max(np.linalg.eigvalsh((pm[:, :, a, b, x, y] + pm[:, :, a, b, x, y].conj().T) / 2)[-1]
+                                   for a in range(A_) for b in range(B_)) for x in range(X_) for y in range(Y_)))
+    for name, val in vals.items():
+        if val > cap + eps:
+            return viol(f"{name} = {val:.6f} exceeds the trivial cap sum_xy pi max_ab lambda_max V = {cap:.6f}", site=f"order:{name.split(':')[0]}<=cap",
+                        observed=vals, expected=cap, nontrivial=nontriv)
+    g2, exc = call(ExtendedNonlocalGame, prob, pm / 2)
+    if exc is not None:
+        return viol("constructor raised on the halved predicate: " + exc_text(exc), site="ExtendedNonlocalGame:exception")
+    for name, fn, a in (("npa:1", g2.commuting_measurement_value_upper_bound, (1,)), ("ns", g2.nonsignaling_value, ())):
+        v, exc = call(fn, *a)
+        ncalls += 1
+        if exc is not None or v is None or not np.isfinite(v):
+            if exc is not None and not _solver_failure(exc):
+                return viol(f"{name} raised on the halved game: " + exc_text(exc), site="order:halved:exception", nontrivial=nontriv)
+            return indet(f"{name} of the halved game: solver failure")
+        if name in vals and abs(float(np.real(v)) - vals[name] / 2) > eps:
+            return viol(f"{name} of the halved game = {float(np.real(v)):.6f}, half of the original = {vals[name] / 2:.6f}",
+                        site=f"order:halved:{name.split(':')[0]}", observed=float(np.real(v)), expected=vals[name] / 2, nontrivial=nontriv)
     return ok(nontriv, obs=[round(vals[k], 5) for k in sorted(vals)], calls=ncalls, values=vals)
 
 
